@@ -94,6 +94,8 @@ fn corpus(large_n: usize) -> Vec<(String, String, &'static str)> {
         ("rxmask.html", "{{ email | regex_replace(pattern=pat, rep=\"<hidden>\") }}".into(), "tera-contrib regex_replace (per-filter regex cache behind a lock): literal replacement"),
         ("rxswap.html", "{{ email | regex_replace(pattern=pat, rep=\"$2 at $1\") }}".into(), "tera-contrib regex_replace: the same pattern with a replacement that uses groups"),
         ("rxmatch.html", "{{ email is matching(pat=pat) }}{{ email is matching(pat=\"^b\") }}{{ a | striptags }}|{{ a | spaceless }}|{{ email | regex_replace(pattern=\"o\", rep=\"0\") }}".into(), "tera-contrib matching (its own cache), striptags, spaceless (lazily built statics)"),
+        ("rand.html", "{{ get_random(start=0, end=1000000, seed=\"s\") }}|{{ get_random(start=0, end=1000000, seed=a) }}|{{ xs | shuffle(seed=\"s\") }}|{{ [1, 2, 3, 4, 5, 6] | shuffle(seed=b) }}|{{ get_random(start=0, end=1000000, seed=\"s\") }}".into(), "tera-contrib get_random / shuffle WITH a seed (reproducible by documentation): the same seed twice in one render and again in the next (seeded change C18-11 kept the last seeded generator in a thread-local)"),
+        ("fmt.html", "{{ 123456789 | filesize_format }}|{{ 123456789 | filesize_format(binary=false) }}|{{ 42 | format(spec=\"05\") }}|{{ a | format(spec=\">8\") }}|{{ 3.14159 | format(spec=\".2\") }}".into(), "tera-contrib filesize_format and format"),
         ("rxbad.html", "x{{ email | regex_replace(pattern=\"(\", rep=\"y\") }}".into(), "tera-contrib regex_replace with an invalid pattern: an error every time"),
         ("custom.html", "{{ b | shout }}{{ peek() }}{% if a is longer_than_b %}L{% else %}S{% endif %}{% block c %}[{{ a | shout }}{{ peek() }}]{% endblock %}{{ <yell label={b} /> }}".into(), "user filter / function / test that call back into the engine through State (call_filter, get), at top level, in a block, in a component"),
         ("customchild.html", "{% extends \"custom.html\" %}{% block c %}({{ super() }}{{ b | shout }}){% endblock %}".into(), "the same through super() and a child block"),
@@ -292,6 +294,11 @@ fn register_contrib(t: &mut Tera) {
     t.register_test("matching", tera_contrib::regex::Matching::default());
     t.register_filter("striptags", tera_contrib::regex::striptags);
     t.register_filter("spaceless", tera_contrib::regex::spaceless);
+    // the seeded (documented-reproducible) variants of the random helpers, and two pure formatters
+    t.register_function("get_random", tera_contrib::rand::get_random);
+    t.register_filter("shuffle", tera_contrib::rand::shuffle);
+    t.register_filter("filesize_format", tera_contrib::filesize_format::filesize_format);
+    t.register_filter("format", tera_contrib::format::format);
 }
 
 const ONE_OFF_ONLY: [(&str, &str); 14] = [
